@@ -180,7 +180,22 @@ fn attempt(rng: &mut Rng, theme: usize) -> Option<Model> {
             // sliders that make the EP delicate: on the pawns' rank, or on lines through the king
             let us = m.stm;
             let pawn_r = if us == WHITE { 4 } else { 3 };
-            if rng.chance(1, 2) {
+            if rng.chance(1, 4) {
+                // our king on a diagonal through the pushed pawn with an enemy bishop/queen beyond it
+                // (the capture removes the pawn and opens the diagonal; unreachable but accepted)
+                let f = m.ep.unwrap() as i8;
+                let d = [(1i8, 1i8), (1, -1), (-1, 1), (-1, -1)][rng.below(4) as usize];
+                let n1 = 1 + rng.below(3) as i8;
+                let n2 = 1 + rng.below(3) as i8;
+                if let (Some(ks), Some(bs)) = (mk(f + d.0 * n1, pawn_r + d.1 * n1), mk(f - d.0 * n2, pawn_r - d.1 * n2)) {
+                    let old = m.king_sq(us).unwrap();
+                    if m.sq[ks as usize].is_none() && m.sq[bs as usize].is_none() {
+                        m.sq[old as usize] = None;
+                        m.sq[ks as usize] = Some((KING, us));
+                        m.sq[bs as usize] = Some((if rng.chance(1, 2) { BISHOP } else { QUEEN }, us ^ 1));
+                    }
+                }
+            } else if rng.chance(1, 2) {
                 // put our king on that rank with an enemy rook/queen on the other side
                 let old = m.king_sq(us).unwrap();
                 let kf = rng.below(8) as i8;
